@@ -46,6 +46,12 @@ pub struct Ctl {
     /// (channel, class id, method id) of requests whose answer is withheld (the caller stays in flight)
     pub withhold: Vec<(u16, u16, u16)>,
     pub tune: Option<connection_::Tune>,
+    /// bytes the transport still accepts (None: no limit); at 0 every write would block
+    pub budget: Option<usize>,
+    /// at most this many bytes are accepted per write call (None: everything offered)
+    pub chunk: Option<usize>,
+    /// total bytes accepted from the client so far
+    pub accepted: usize,
     readiness: Option<SetReadiness>,
 }
 
@@ -58,7 +64,9 @@ impl Handle {
     }
     fn wake(ctl: &Ctl) {
         if let Some(r) = &ctl.readiness {
-            let _ = r.set_readiness(Ready::readable() | Ready::writable());
+            let w = if ctl.budget == Some(0) { Ready::empty() } else { Ready::writable() };
+            let rd = if ctl.inject.is_empty() && !ctl.eof { Ready::empty() } else { Ready::readable() };
+            let _ = r.set_readiness(w | rd);
         }
     }
     /// server-initiated bytes
@@ -78,6 +86,17 @@ impl Handle {
         let mut c = (self.0).0.lock().unwrap();
         c.eof = true;
         Handle::wake(&c);
+    }
+    pub fn set_budget(&self, budget: Option<usize>) {
+        let mut c = (self.0).0.lock().unwrap();
+        c.budget = budget;
+        Handle::wake(&c);
+    }
+    pub fn set_chunk(&self, chunk: Option<usize>) {
+        (self.0).0.lock().unwrap().chunk = chunk;
+    }
+    pub fn accepted(&self) -> usize {
+        (self.0).0.lock().unwrap().accepted
     }
     pub fn withhold(&self, channel: u16, class_id: u16, method_id: u16) {
         (self.0).0.lock().unwrap().withhold.push((channel, class_id, method_id));
@@ -127,7 +146,8 @@ impl LiveBroker {
     }
     fn now(&mut self) -> Ready {
         let eof = self.pull_injected();
-        if self.inbox.is_empty() && !eof { Ready::writable() } else { Ready::readable() | Ready::writable() }
+        let w = if (self.ctl.0).0.lock().unwrap().budget == Some(0) { Ready::empty() } else { Ready::writable() };
+        if self.inbox.is_empty() && !eof { w } else { Ready::readable() | w }
     }
     fn reply<M: crate::serialize::IntoAmqpClass>(&mut self, n: u16, m: M) {
         self.inbox.extend(method_bytes(n, m));
@@ -194,6 +214,25 @@ impl Read for LiveBroker {
 
 impl Write for LiveBroker {
     fn write(&mut self, buf: &[u8]) -> io::Result<usize> {
+        let take = {
+            let mut c = (self.ctl.0).0.lock().unwrap();
+            let mut n = buf.len();
+            if let Some(b) = c.budget {
+                if b == 0 {
+                    return Err(io::ErrorKind::WouldBlock.into());
+                }
+                n = n.min(b);
+            }
+            if let Some(k) = c.chunk {
+                n = n.min(k.max(1));
+            }
+            if let Some(b) = c.budget {
+                c.budget = Some(b - n);
+            }
+            c.accepted += n;
+            n
+        };
+        let buf = &buf[..take];
         let mut data = std::mem::replace(&mut self.pending, Vec::new());
         data.extend_from_slice(buf);
         let mut rest: &[u8] = &data;
@@ -237,7 +276,8 @@ impl Evented for LiveBroker {
     fn reregister(&self, poll: &Poll, token: Token, interest: Ready, opts: PollOpt) -> io::Result<()> {
         let r = self.registration.reregister(poll, token, interest, opts);
         let c = (self.ctl.0).0.lock().unwrap();
-        let ready = if self.inbox.is_empty() && c.inject.is_empty() && !c.eof { Ready::writable() } else { Ready::readable() | Ready::writable() };
+        let w = if c.budget == Some(0) { Ready::empty() } else { Ready::writable() };
+        let ready = if self.inbox.is_empty() && c.inject.is_empty() && !c.eof { w } else { Ready::readable() | w };
         self.readiness.set_readiness(ready).unwrap();
         r
     }
